@@ -307,7 +307,11 @@ class Interp:
         if isinstance(t, ast.Attribute):
             base = self.ev(t.value, fr)
             if isinstance(base, VTT) and not base.operand:
-                base.extra[t.attr] = v
+                nm = t.attr.lstrip("_") if t.attr.startswith("__") and not t.attr.endswith("__") else t.attr
+                if nm == "cores":
+                    base.cores = v
+                else:
+                    base.extra[nm] = v
                 return
             raise Unmodelled("attribute store")
         raise Unmodelled(f"assignment target {type(t).__name__}")
@@ -397,11 +401,15 @@ class Interp:
                 if not _solve_eq(self.facts, n, 1):
                     raise Unmodelled(f"cannot install {n!r} == 1")
             return "concrete"
-        if self.facts.compare(n, ">=", 0) is True:
+        nonneg = self.facts.compare(n, ">=", 0)
+        if nonneg is None:
+            nonneg = self.trail.decide(f"{what}: {n!r} >= 0")
+        if nonneg:
             if not self.facts.assume_eq(n, 0, f"{what} is empty"):
                 _solve_eq(self.facts, n, 0)
         else:
-            _install_ge(self.facts, -n, 0)
+            _install_ge(self.facts, -n, 1)
+            _pin_if_tight(self.facts, n + 1)
         return "empty"
 
     def exec_for(self, s: ast.For, fr):
@@ -414,9 +422,9 @@ class Interp:
                 self.exec_block(s.orelse, fr)
                 return
             if mode == "classes":
-                hook = self.hooks.get(("sweep", fr.f.short, _loop_ordinal(fr.f, s)))
-                if hook is not None:
-                    return self.exec_sweep(s, fr, it, hook)
+                for hook in self.hooks.get(("sweep", fr.f.short), []):
+                    if hook.get("when") is None or hook["when"](self, s, fr):
+                        return self.exec_sweep(s, fr, it, hook)
                 return self.exec_class_loop(s, fr, n, getter)
             it = self.ev(s.iter, fr)   # re-evaluate under the new facts
         items = self.iter_concrete(it)
@@ -433,6 +441,15 @@ class Interp:
 
     def exec_class_loop(self, s: ast.For, fr, n: P, getter):
         """Map-style loop over >= 2 positions: the body is evaluated once per position class."""
+        # a variable that is carried from one iteration to the next needs a declared invariant (sweep hook)
+        stored = {n.id for st in s.body for n in ast.walk(st) if isinstance(n, ast.Name) and isinstance(n.ctx, ast.Store)}
+        stored |= {n.target.id for st in s.body for n in ast.walk(st) if isinstance(n, ast.AugAssign) and isinstance(n.target, ast.Name)}
+        loaded = {n.id for st in s.body for n in ast.walk(st) if isinstance(n, ast.Name) and isinstance(n.ctx, ast.Load)}
+        tnames = set(_target_name(s.target).split("_")) | {x.id for x in ast.walk(s.target) if isinstance(x, ast.Name)}
+        carried = [n for n in stored & loaded if n in fr.env and n not in tnames and not isinstance(fr.env[n], (VList, VSymList))
+                   and _read_before_write(s.body, n)]
+        if carried:
+            raise Unmodelled(f"loop-carried variable(s) {sorted(carried)} in `for {norm(s.target)} in {norm(s.iter)[:40]}` without a declared invariant")
         base_facts = self.facts.copy()
         lists = {}
 
@@ -536,13 +553,21 @@ class Interp:
             if isinstance(node, ast.Compare) and any(isinstance(x, ast.Name) and x.id == tgt for x in ast.walk(node)) and node is not s:
                 raise Unmodelled("position-dependent branch inside a sweep loop")
         acc = hook["acc"]
+
+        def spec_call(fn, *a):
+            """evaluate a specification function; size identifications it makes are not obligations of the code"""
+            n0 = len(self.sp.obligations)
+            try:
+                return fn(*a)
+            finally:
+                del self.sp.obligations[n0:]
         first = getter(ZERO)
         start = first.p if isinstance(first, VInt) else None
         name = hook.get("name", fr.f.short)
         # init
         cur = fr.env.get(acc)
-        exp = hook["init"](self, fr)
-        ok, detail, _ = compare(self.sp, cur, exp)
+        exp = spec_call(hook["init"], self, fr)
+        ok, detail, _ = spec_call(compare, self.sp, cur, exp)
         self.checks.append((f"{name}:sweep-init", ok, "initial accumulator " + ("matches the empty/first-position state" if ok else detail)))
         # generic step
         iv = self.fresh_atom(tgt)
@@ -553,17 +578,17 @@ class Interp:
         k = P.atom(iv)
         _install_ge(self.facts, n - 1 - k, 0)
         fr2 = Frame(fr.f, dict(fr.env))
-        fr2.env[acc] = VTensor(hook["state"](self, fr2, k), "acc")
+        fr2.env[acc] = _as_vtensor(spec_call(hook["state"], self, fr2, k))
         self.assign(s.target, getter(k), fr2)
         self.exec_block(s.body, fr2)
         got = fr2.env[acc]
-        exp = hook["step"](self, fr2, k)
-        ok, detail, _ = compare(self.sp, got, exp)
+        exp = spec_call(hook["step"], self, fr2, k)
+        ok, detail, _ = spec_call(compare, self.sp, got, exp)
         self.checks.append((f"{name}:sweep-step", ok, "loop body maps state(i) to state(i+1)" if ok else detail))
         self.facts = base
         self.sp.facts = base
         # final state
-        fr.env[acc] = VTensor(hook["state"](self, fr, n), "acc")
+        fr.env[acc] = _as_vtensor(spec_call(hook["state"], self, fr, n))
 
     # ------------------------------------------------------------------ expressions
     def ev(self, e, fr) -> Value:
@@ -668,7 +693,17 @@ class Interp:
                         out = out * l.p
                     return VInt(out)
             raise Unmodelled(f"integer op {type(op).__name__}")
+        if isinstance(l, VIndexSeq) and isinstance(r, VInt) and r.p.const_value() is not None:
+            c = int(r.p.const_value())
+            if isinstance(op, ast.Mult):
+                return VIndexSeq([(n, a * c, b * c) for n, a, b in l.parts])
+            if isinstance(op, ast.Add):
+                return VIndexSeq([(n, a, b + c) for n, a, b in l.parts])
         # list algebra
+        if isinstance(op, ast.Add) and isinstance(l, VList) and isinstance(r, VList) and self.class_ctx:
+            v = VList(l.items + r.items)
+            self.class_ctx[-1].local_lists.add(id(v))
+            return v
         if isinstance(op, ast.Add) and isinstance(l, (VList, VSymList)) and isinstance(r, (VList, VSymList)):
             return _concat_lists(l, r)
         if isinstance(op, ast.Add) and isinstance(l, VTuple) and isinstance(r, VTuple):
@@ -744,6 +779,11 @@ class Interp:
         if isinstance(op, (ast.Add, ast.Sub)):
             if isinstance(l, VTensor) and isinstance(r, VTensor):
                 rv = r.val if isinstance(op, ast.Add) else _scale(r.val, Coef(-1))
+                if not isinstance(l.val, Block) and not isinstance(rv, Block) and l.val.terms and rv.terms and l.val.ndim() != rv.ndim():
+                    big, small = (l.val, rv) if l.val.ndim() > rv.ndim() else (rv, l.val)
+                    k = big.ndim() - small.ndim()
+                    padded = Dense(self.sp, [Term(t.coef, t.atoms, [()] * k + list(t.out)) for t in small.terms])
+                    return VTensor(big.add(padded), l.dtype, l.counts if big is l.val else r.counts)
                 if isinstance(l.val, Block) or isinstance(rv, Block):
                     lb = l.val if isinstance(l.val, Block) else Block.of_dense(l.val)
                     rb = rv if isinstance(rv, Block) else Block.of_dense(rv)
@@ -1030,6 +1070,19 @@ class ClassCtx:
 
 # --------------------------------------------------------------------------- small helpers
 
+def _read_before_write(body, name):
+    """may `name` be read in the loop body before it is assigned in the same iteration?"""
+    from ..flow import DefAssign
+    fn = ast.FunctionDef(name="_body", args=ast.arguments(posonlyargs=[], args=[], kwonlyargs=[], kw_defaults=[], defaults=[]),
+                         body=list(body), decorator_list=[], lineno=1, col_offset=0)
+    bad = DefAssign(fn, {}, set()).run()
+    return any(u.name == name for u in bad)
+
+
+def _as_vtensor(x):
+    return x if isinstance(x, VTensor) else VTensor(x, "acc")
+
+
 def _load(t):
     import copy
     t2 = copy.copy(t)
@@ -1142,6 +1195,21 @@ def _install_ge(facts: Facts, p: P, bound: int):
     return False
 
 
+def _pin_if_tight(facts: Facts, p: P):
+    """p <= 0 with p = atom - c and lower bound of the atom equal to c: the atom is pinned to c"""
+    p = facts.norm(P.of(p))
+    atoms = list(p.atoms())
+    if len(atoms) != 1:
+        return
+    a = atoms[0]
+    rest = p - P.atom(a)
+    c = rest.const_value()
+    if c is None:
+        return
+    if facts.lower(a) == -c:
+        facts.set_sub(a, P.const(-c), "pinned by bounds")
+
+
 def _solve_eq(facts: Facts, p: P, value: int):
     p = facts.norm(P.of(p))
     for k, v in p.t.items():
@@ -1150,8 +1218,7 @@ def _solve_eq(facts: Facts, p: P, value: int):
             rest = p - P({k: v})
             if a in rest.atoms():
                 continue
-            facts.sub[a] = (P.const(value) - rest) * int(v)
-            facts.log.append(f"{a} := {facts.sub[a]!r}")
+            facts.set_sub(a, (P.const(value) - rest) * int(v), "solved")
             return True
     return False
 
